@@ -92,6 +92,8 @@ def replay(cases, rnd, nvariants=2, chunk=150, want_extra=None, main="a", jobs=N
             rec["problems"] = jr["problems"]
             rec["bkeys"] = jr.get("bkeys")
             rec["bmDisabled"] = jr.get("bmDisabled")
+            rec["bmApplied"] = jr.get("bmApplied", 0)
+            rec["bmSkipped"] = jr.get("bmSkipped", 0)
     return records
 
 
